@@ -600,6 +600,35 @@ def b_minmax(eng, st, args, kwargs, node, is_max):
             eng.assume(st, z3.And(0 <= j, j < n, eng.list_get(st, ks, j).term == r))
             eng.assume(st, qforall([i], z3.Implies(z3.And(0 <= i, i < n), dom), patterns=[e_i]))
             return SV(ek, r)
+    if len(args) == 1 and set(kwargs) == {"key"} and isinstance(args[0].kind, KList):
+        # max/min(list, key=f): an element no other element's key beats (which of several is unspecified here;
+        # CPython takes the first).  Keys int or float (NaN keys: comparisons false, CPython-specific result not modelled).
+        v = args[0]
+        n = eng.list_len(st, v)
+        if not eng.spec_mode and not st.branch(n > 0, "max-empty"):
+            eng.raise_(ValueError, node)
+        w, i = st.fresh("mxw", z3.IntSort()), z3.Int("mxk_i")
+
+        def key_of(sv):
+            eng.spec_mode += 1
+            try:
+                return eng.call_value(st, kwargs["key"], [sv], {}, node)
+            finally:
+                eng.spec_mode -= 1
+        e_i, e_w = eng.list_get(st, v, i), eng.list_get(st, v, w)
+        k_i, k_w = key_of(e_i), key_of(e_w)
+        k_i, k_w = eng.unify(st, k_i, k_w, node)
+        if isinstance(k_i.kind, KOpt) or k_i.kind is KVal:
+            k_i, k_w = eng.coerce(st, k_i, KFloat, node), eng.coerce(st, k_w, KFloat, node)
+        if k_i.kind is KInt:
+            dom = (k_i.term <= k_w.term) if is_max else (k_i.term >= k_w.term)
+        elif k_i.kind is KFloat:
+            dom = z3.Not(f_lt(k_w.term, k_i.term)) if is_max else z3.Not(f_lt(k_i.term, k_w.term))
+        else:
+            raise Unsupported("max/min key of kind %s" % k_i.kind)
+        eng.assume(st, z3.And(0 <= w, w < n))
+        eng.assume(st, qforall([i], z3.Implies(z3.And(0 <= i, i < n), dom), patterns=[e_i.term]))
+        return e_w
     h = eng.reg.specfuncs.get("minmax_seq")
     if h is not None:
         return h(eng, st, args, kwargs, node, is_max)
